@@ -30,6 +30,8 @@ import (
 	"encoding/hex"
 	"fmt"
 	"math/rand/v2"
+	"sync"
+	"sync/atomic"
 	"testing"
 
 	"gitlab.com/yawning/obfs4.git/common/ntor"
@@ -503,12 +505,75 @@ func kdfCase(c *mon.Case, r *mon.Run, idx int) {
 	}
 }
 
+// concurrentHandshakes: both handshake functions and Kdf are pure functions of
+// their arguments, and a bridge runs them for many connections at once, so
+// what they return while 16 goroutines call them in parallel must equal what
+// the same calls returned one after the other.  Exact oracle, no reference.
+func concurrentHandshakes(c *mon.Case, r *mon.Run, seed uint64, calls int) {
+	defer steer.Install(steer.New(seed ^ 0x77))()
+	rng := mon.NewRand(seed)
+	const nW = 96
+	type res struct {
+		okC, okS           bool
+		ksC, auC, ksS, auS [32]byte
+		kdf                [72]byte
+	}
+	ws := make([]*world, nW)
+	want := make([]res, nW)
+	run := func(w *world) (o res) {
+		okC, ksC, auC := ntor.ClientHandshake(w.X, w.Y.Public(), w.B.Public(), w.id)
+		okS, ksS, auS := ntor.ServerHandshake(w.X.Public(), w.Y, w.B, w.id)
+		o.okC, o.okS, o.ksC, o.auC, o.ksS, o.auS = okC, okS, *ksC, *auC, *ksS, *auS
+		copy(o.kdf[:], ntor.Kdf(ksC[:], len(o.kdf)))
+		return
+	}
+	for i := range ws {
+		ws[i] = mkWorld(c, rng)
+		want[i] = run(ws[i])
+	}
+	workers := 16
+	var wg sync.WaitGroup
+	var bad, firstBad atomic.Int64
+	firstBad.Store(-1)
+	for g := 0; g < workers; g++ {
+		g := g
+		wg.Add(1)
+		go func() {
+			defer wg.Done()
+			for k := 0; k < calls/workers; k++ {
+				i := (k*7 + g*13) % nW
+				if run(ws[i]) != want[i] {
+					bad.Add(1)
+					firstBad.CompareAndSwap(-1, int64(i))
+				}
+			}
+		}()
+	}
+	wg.Wait()
+	r.Count("evaluations", int64(calls))
+	r.Count("concurrent_handshake_rounds", int64(calls))
+	if n := bad.Load(); n > 0 {
+		w := ws[firstBad.Load()]
+		c.Violation("concurrent/result-differs-from-sequential", fmt.Sprintf("%d of %d client+server handshake rounds run concurrently from %d goroutines returned something else (ok, KEY_SEED, AUTH or Kdf output) than the same calls made alone", n, calls, workers), w.witness())
+	} else {
+		r.Count("control_concurrent_equals_sequential", 1)
+	}
+}
+
 func TestCheck(t *testing.T) {
 	r := mon.Start(t, "C08")
 	defer r.Finish()
-	r.Note("rule", "Worlds (identity key pair B, node ID, ephemeral pairs X and Y) are drawn by PRNG: key pairs from ntor.NewKeypair with and without Elligator (crypto/rand steered by a seeded source) and from KeypairFromHex with random and edge private keys (all-zero, all-ones, only-clamped-bits); node IDs random, all-zero, all-ones. Per world: one honest client+server run against the reference; one-bit changes of NODEID/B/Y (client side) and NODEID/X (server side) - one random bit per input in the hs/ cases, every bit position in the flipall/ cases; in the low/ cases each of the 14 encodings of the 7 low-order u-coordinates (value and value+2^255) as Y, as B, as both (diagonal plus random pairs) on the client and as X on the server, plus near-miss encodings judged by the reference. Kdf: per seed every length 0..8160 against Kdf(seed,8160), 200 sampled pairs m<n, repeat calls. Non-trivial/distinct: distinct KEY_SEED of an honest run; distinct (side,input,bit) of a flip; distinct (position,encoding) of a low-order or near-miss key; distinct Kdf length.")
+	r.Note("rule", "Worlds (identity key pair B, node ID, ephemeral pairs X and Y) are drawn by PRNG: key pairs from ntor.NewKeypair with and without Elligator (crypto/rand steered by a seeded source) and from KeypairFromHex with random and edge private keys (all-zero, all-ones, only-clamped-bits); node IDs random, all-zero, all-ones. Per world: one honest client+server run against the reference; one-bit changes of NODEID/B/Y (client side) and NODEID/X (server side) - one random bit per input in the hs/ cases, every bit position in the flipall/ cases; in the low/ cases each of the 14 encodings of the 7 low-order u-coordinates (value and value+2^255) as Y, as B, as both (diagonal plus random pairs) on the client and as X on the server, plus near-miss encodings judged by the reference. Concurrency: 96 worlds whose client+server handshake and Kdf results were computed one after the other are recomputed by 16 goroutines in parallel and must be identical. Kdf: per seed every length 0..8160 against Kdf(seed,8160), 200 sampled pairs m<n, repeat calls. Non-trivial/distinct: distinct KEY_SEED of an honest run; distinct (side,input,bit) of a flip; distinct (position,encoding) of a low-order or near-miss key; distinct Kdf length.")
 	r.Note("exhaustive_part", "every bit position of NODEID (160), B, Y (client) and NODEID, X (server) for the flipall/ worlds; all 14 low-order encodings in all 4 positions for every low/ world; every Kdf length 0..8160 for every Kdf seed")
 	r.Note("not_judged", "KEY_SEED/AUTH returned with ok=false; ok for hostile keys whose DH result is non-zero; Kdf lengths > 8160 (panic by design); representative->public mapping (C07)")
+
+	for ci := 0; ci < r.Pick(4, 16); ci++ {
+		ci := ci
+		r.Case(fmt.Sprintf("concurrent/%02d", ci), func(c *mon.Case) {
+			concurrentHandshakes(c, r, r.Sub("conc", ci), r.Pick(4000, 40000))
+			r.Distinct("nontrivial", fmt.Sprintf("concurrent/%d", ci))
+		})
+	}
 
 	const nHS = 64
 	perHS := r.Pick(10, 700)
